@@ -89,7 +89,7 @@ TNewInstance ==
     /\ closed' = FALSE /\ pol' = [alive |-> TRUE, closed |-> FALSE, q |-> 0] /\ stopQ' = 0 /\ wdone' = {}
     /\ met' = ZeroMet /\ cbs' = <<>> /\ res' = Nil
     /\ outcnt' = [v \in Val |-> 0] /\ accepted' = {} /\ owner' = [v \in Val |-> Nil]
-    /\ dropped' = {} /\ lost' = {} /\ slack' = 0 /\ errSeen' = FALSE /\ orphans' = {} /\ kf' = {}
+    /\ dropped' = {} /\ lost' = {} /\ slack' = 0 /\ errSeen' = FALSE /\ orphans' = {} /\ kf' = {} /\ gh' = GhInit
     /\ Ev.clients <= Cardinality(Clients)
 
 Step(A) == A /\ PostOK /\ OutOK
